@@ -43,7 +43,8 @@ META = {
     "boundary, ±0.0, inf; str/bytes incl. separator look-alikes; list/tuple/set/frozenset/dict; attrs, slots and plain "
     "objects; inline types; functions from generated source, exec'd without source, closures, lambdas; functools.partial objects "
     "and bound methods; numpy arrays (C / Fortran / transposed / strided layouts) and "
-    "scalars of 9 dtypes, 11 shapes; shared sub-objects), or (context values, value) hashed with one Cache; distinct by "
+    "scalars of 9 dtypes, 14 shapes; shared sub-objects; Python-equal values of different type (1 / True / 1.0, 0 / -0.0, (1, 2) / "
+    "(True, 2.0), …) as keys, elements and plain values of sibling containers), or (context values, value) hashed with one Cache; distinct by "
     "canonical JSON of the pair and aspect; non-trivial = at least one of the two values is not a bare scalar",
     "assumptions": [
         "a lambda, like a function without retrievable source, is identified by its code object; the content of a function is its parameter list and body (name, annotations are not content; closure cells are C06's subject); "
@@ -78,6 +79,9 @@ OBLIGATIONS = [
         "C08_old_keys_sorted_by_value",
         "C08_witness_cycle",
         "C08_witness_layout_dependent_serialisation",
+        "C08_key_repr_memo_free",
+        "C08_untracked_memo_free",
+        "C08_witness_value_keyed_key_memo",
         "heads_prefix_free",
         "len_seps_ok",
         "words_ok",
@@ -370,8 +374,19 @@ def correspondence(ctx):
                 w = ctx.rng.choice(["list", "tuple"])
                 a, b = {"k": w, "xs": [a, {"k": "int", "v": "1"}]}, {"k": w, "xs": [b, {"k": "int", "v": "1"}]}
             todo.append({"a": a, "b": b, "same": same, "aspect": "same:array-layout" if same else "raw-buffer:same-memory-other-content"})
+    # Python-equal but different values (1 / True / 1.0, 0 / False / -0.0, (1, 2) / (True, 2.0), …) as keys, elements and plain
+    # values of two SIBLINGS inside one container: the second must not be mistaken for the first
+    eq_ctx = []
+    for _ in range(ctx.pick(24, 300)):
+        a, b, aspect, (x, y2) = H.gen_eq_sibling_pair(ctx.rng)
+        if not (H.valid(a) and H.valid(b)):
+            continue
+        same = H.canon_key(a) == H.canon_key(b)
+        todo.append({"a": a, "b": b, "same": same, "aspect": aspect if not same else "same:coincidence"})
+        eq_ctx.append({"ctx": [x], "v": y2})  # … nor when hashed with a shared Cache after it
     for i in range(0, len(todo), batch):
         run_pairs(ctx, todo[i : i + batch], moddir)
+    run_ctx(ctx, eq_ctx, moddir)
     cs = [gen_ctx(ctx.rng) for _ in range(n_ctx)]
     for i in range(0, len(cs), batch):
         run_ctx(ctx, cs[i : i + batch], moddir)
@@ -379,6 +394,19 @@ def correspondence(ctx):
 
 def search(ctx):
     moddir = ctx.scratch / "mods"
+    eq_pairs, eq_ctx = [], []
+    for _ in range(ctx.pick(150, 600)):
+        a, b, aspect, (x, y2) = H.gen_eq_sibling_pair(ctx.rng)
+        if H.valid(a) and H.valid(b):
+            same = H.canon_key(a) == H.canon_key(b)
+            eq_pairs.append({"a": a, "b": b, "same": same, "aspect": aspect if not same else "same:coincidence"})
+            eq_ctx.append({"ctx": [x], "v": y2})
+    run_pairs(ctx, eq_pairs, moddir)
+    run_ctx(ctx, eq_ctx, moddir)
+    for _ in range(ctx.pick(60, 300)):
+        for kind in ("layout", "raw"):
+            a, b, same = H.gen_layout_pair(ctx.rng, kind)
+            run_pairs(ctx, [{"a": a, "b": b, "same": same, "aspect": "same:array-layout" if same else "raw-buffer:same-memory-other-content"}], moddir)
     run_pairs(ctx, [gen_pair(ctx.rng) for _ in range(ctx.pick(600, 4000))], moddir)
     run_ctx(ctx, [gen_ctx(ctx.rng) for _ in range(ctx.pick(150, 1000))], moddir)
 
